@@ -85,7 +85,9 @@ def fill_markdown(
         markdown_text = content
 
     if dedent_input:
-        markdown_text = dedent(markdown_text).strip()
+        # Normalize CRLF first (as the parser does anyway): `dedent()` does not see a
+        # CRLF-terminated blank line as blank and would then not dedent at all.
+        markdown_text = dedent(markdown_text.replace("\r\n", "\n")).strip()
 
     markdown_text = markdown_text.strip() + "\n"
 
